@@ -780,5 +780,6 @@ KILLS = [
     'TextFile.read_line: limit 200 => lineinput.line ; strips leading blanks => lineinput.line',
     'input_entry: trailing-blank skip after the closing quote removed  => input.string, input.number, eof.late',
     "TextFile.lof via os.fstat(fileno).st_size instead of seek (reviewer's seeded change: pending bytes of the write buffer not counted) => ./check red: lof.output ('LOF(1) = 0.0, the statements so far produced 4 bytes') ; variant that is only stale beyond 8192 pending bytes => lof.output in a >8 KiB session",
+    "codepage.NewlineWrapper.read: 'last byte' state taken from the converted output (reviewer's wave-5 seed: of n consecutive LFs only ceil(n/2) survive) => ./check (tools/seedtest.py) red: input.string ('read CR, expected CR CR'), lineinput.line ; bare LF not translated => input.string, lineinput.line ; CR LF not folded => input.number, input.string, lineinput.line ; TextFile.read_one CRLF fold dropped (soft_linefeed) => input.string, eof.late",
     "SURVIVED (equivalent on POSIX): TextFile.__init__ APPEND seeks to the start - the stream is opened with mode 'a' (O_APPEND)",
 ]
